@@ -674,6 +674,18 @@ func (handler) EchoParams(ctx context.Context, params api.EchoParamsParams) (*ap
 	return paramsEcho(params), nil
 }
 
+func (handler) EchoItem(ctx context.Context, params api.EchoItemParams) (*api.EchoItemOK, error) {
+	yield(ctx)
+	saw(ctx, "name="+params.Name)
+	return &api.EchoItemOK{Name: params.Name}, nil
+}
+
+func (handler) EchoItemRecent(ctx context.Context) (*api.EchoItemRecentOK, error) {
+	yield(ctx)
+	saw(ctx, "recent")
+	return &api.EchoItemRecentOK{Name: "recent"}, nil
+}
+
 func (handler) EchoAny(ctx context.Context, req jx.Raw) (*api.EchoAnyOK, error) {
 	yield(ctx)
 	saw(ctx, fmt.Sprintf("present=%v raw=%s", req != nil, string(req)))
@@ -1235,6 +1247,20 @@ func doCall(ctx context.Context, c *api.Client, rec *CallRecord) {
 		rec.ExpectClientGot = canon(*paramsEcho(params))
 		rec.ExpectStatus = 200
 		res, err := c.EchoParams(ctx, params)
+		finish(rec, res, err)
+	case "echoItem":
+		// a parameter whose sibling in the route tree is a static leaf (/echo/item/recent): names that begin like it
+		name := []string{"it-" + tag, "recent" + tag, "recen", "recentX", "rec ent " + tag, "r"}[r.intn(6)]
+		rec.ExpectServerSaw = "name=" + name
+		rec.ExpectClientGot = canon(api.EchoItemOK{Name: name})
+		rec.ExpectStatus = 200
+		res, err := c.EchoItem(ctx, api.EchoItemParams{Name: name})
+		finish(rec, res, err)
+	case "echoItemRecent":
+		rec.ExpectServerSaw = "recent"
+		rec.ExpectClientGot = canon(api.EchoItemRecentOK{Name: "recent"})
+		rec.ExpectStatus = 200
+		res, err := c.EchoItemRecent(ctx)
 		finish(rec, res, err)
 	case "echoAny":
 		// an optional body of any JSON type: absent, or a value - of which null is one
